@@ -88,6 +88,8 @@ pub struct SimInner {
     pub gate_now: u64,
     /// The earliest timer, i.e. the wake-up the daemon asks for.
     pub wakeup: Option<u64>,
+    /// The time-out the daemon was about to hand to `poll`, in ms (`None`: no time-out).
+    pub poll_timeout_ms: Option<u64>,
     /// Commands waiting in the daemon's queue when it arrived at the gate.
     pub queued: usize,
     /// 0: no snapshot, 1: summary, 2: with every cached record.
@@ -163,6 +165,7 @@ impl SimCtx {
                 iter: 0,
                 gate_now: 0,
                 wakeup: None,
+                poll_timeout_ms: None,
                 queued: 0,
                 snapshot_level: 0,
                 snapshot: None,
@@ -373,6 +376,7 @@ pub(crate) fn gate(
     g.iter += 1;
     g.gate_now = now;
     g.wakeup = earliest_timer;
+    g.poll_timeout_ms = timeout.map(|t| t.as_millis() as u64);
     g.queued = queued;
     if g.snapshot_level > 0 {
         let level = g.snapshot_level;
